@@ -1115,7 +1115,7 @@ where
                 .into_iter()
                 .map(|elem| match elem {
                     Some(ExprOrSpread { spread: None, expr }) => match *expr {
-                        Expr::Ident(ident) if ident.sym == left.sym => {
+                        Expr::Ident(ident) if ident.to_id() == left.to_id() => {
                             let name = private_ident!(format!("_{}", ident.sym));
                             self.injecting_consts.push(VarDeclarator {
                                 span: DUMMY_SP,
